@@ -339,6 +339,19 @@ func limitSleepShape(c *Ctx, lr *limitRoles, rule string, strict bool) {
 			problems = append(problems, "UNDECIDED: cannot resolve the subtracted duration "+arg.Args[1].String())
 		}
 		nElapsed := 0
+		if !strict {
+			// Interval - (x % Interval) sleeps at least Interval - x: look through the modulo (C04 only)
+			var un []*Sym
+			for _, d := range ds {
+				dd := d.StripConv()
+				if dd.Op == "bin" && dd.Name == "%" && isInterval(dd.Args[1]) {
+					un = append(un, resolve(dd.Args[0])...)
+				} else {
+					un = append(un, d)
+				}
+			}
+			ds = un
+		}
 		for _, d := range ds {
 			if k, ok := symConstInt(d); ok && k == 0 {
 				continue // the stop path returns 0 (never slept on, see Q3/L2)
@@ -412,13 +425,17 @@ func runC04(c *Ctx) {
 			if cmp == nil {
 				continue
 			}
-			// continue-condition must be  iter(+1) < Quantity  with iter starting at 0, step +1
+			// continue-condition: a test before the body `iter < Quantity`, or a test after the body
+			// `iter+1 < Quantity` (the rotated form the compiler front end gives `for range n`),
+			// iter counted from 0 by 1
 			_, path, okp := cmp.R.StripConv().FieldPath()
+			wantLC := int64(1)
+			if b.Dominates(lr.src.In.Block()) {
+				wantLC = 0
+			}
 			if cmp.Op == token.LSS && okp && strings.Join(path, ".") == "opts.Limit.Quantity" && cmp.RC == 0 {
-				if ph, isPhi := cmp.L.V.(*ssa.Phi); isPhi && phiCountsFromZeroByOne(ph, loop) && cmp.LC == 1 {
+				if ph, isPhi := cmp.L.V.(*ssa.Phi); isPhi && phiCountsFromZeroByOne(ph, loop) && cmp.LC == wantLC {
 					ok = true
-				} else if bo, isBo := cmp.L.V.(*ssa.BinOp); isBo {
-					_ = bo
 				}
 			}
 			if !ok {
